@@ -49,6 +49,7 @@ func Run(c *run.Ctx) {
 	detCases(c, c.N(96, 800))
 	cliCases(c, c.N(24, 220))
 	exprCases(c, c.N(32, 320))
+	exprSelfCases(c, c.N(12, 120))
 }
 
 func opts(c *run.Ctx) genOpts {
@@ -70,6 +71,8 @@ func runCase(c *run.Ctx, cs *Case) {
 		runCLICase(c, cs)
 	case "expr":
 		runExprCase(c, cs)
+	case "exprself":
+		runExprSelfCase(c, cs)
 	default:
 		c.Inconclusive("unknown case kind " + cs.Kind)
 	}
@@ -442,6 +445,91 @@ func runExprCase(c *run.Ctx, cs *Case) {
 	flushStats(c, &st)
 }
 
+// runExprSelfCase: `rare expression -k …` with raw -k arguments of any shape (no '=', the same name
+// more than once, '=' inside the value). Whatever text {name} resolves to in this very invocation is
+// the text the member "name" of {.} and {.#} must decode to: the JSON view and the key lookup are two
+// views of one argument list. The values are plain words, so no escaping or inference is in play.
+func runExprSelfCase(c *run.Ctx, cs *Case) {
+	if c.RareBin == "" {
+		c.Inconclusive("no rare binary")
+		return
+	}
+	var args0 []string
+	var names []string
+	seen := map[string]bool{}
+	for _, p := range cs.Pairs {
+		args0 = append(args0, "-k="+p)
+		n, _, _ := strings.Cut(p, "=")
+		if !seen[n] {
+			seen[n] = true
+			names = append(names, n)
+		}
+	}
+	for _, d := range cs.Data {
+		args0 = append(args0, "-d="+string(unb64(d)))
+	}
+	id := run.Hash64("exprself", strings.Join(args0, "\x00"))
+	eval := func(expr string) (string, bool) {
+		args := append(append([]string{"expression", "-n"}, args0...), expr)
+		so, se, err := runCLI(c.RareBin, c.WorkDir, args...)
+		c.Count("cli_runs", 1)
+		if err != nil {
+			if strings.Contains(string(se), "panic:") {
+				c.Violation("cli-crash:"+id, fmt.Sprintf("rare %s: crashed: %v\n%s", quoteArgs(args), err, tailStr(string(se), 1500)), cs)
+			} else {
+				c.Count("cli_rejected_not_judged", 1)
+			}
+			return "", false
+		}
+		return string(so), true
+	}
+	want := map[string]string{}
+	for _, n := range names {
+		v, ok := eval("{" + n + "}")
+		if !ok {
+			return
+		}
+		want[n] = v
+	}
+	c.Nontrivial("exprself", strings.Join(args0, "\x00"))
+	for _, view := range cs.Views {
+		out, ok := eval("{" + view + "}")
+		if !ok {
+			return
+		}
+		c.Evals(1)
+		c.Count("matches", 1)
+		c.Count("cli_expression_self_results", 1)
+		what := fmt.Sprintf("rare %s", quoteArgs(append(append([]string{"expression", "-n"}, args0...), "{"+view+"}")))
+		dec := json.NewDecoder(strings.NewReader(out))
+		dec.UseNumber()
+		var obj map[string]any
+		if err := dec.Decode(&obj); err != nil || dec.More() {
+			c.Violation("invalid-json:expression-self:"+id, fmt.Sprintf("%s printed %q: not one JSON object (%v)", what, out, err), cs)
+			continue
+		}
+		for _, n := range names {
+			got, present := obj[n]
+			gs := ""
+			switch t := got.(type) {
+			case string:
+				gs = t
+			case json.Number:
+				gs = t.String()
+			case bool:
+				gs = fmt.Sprint(t)
+			default:
+				present = false
+			}
+			c.Count("self_members_compared", 1)
+			if !present || gs != want[n] {
+				c.Violation("unfaithful:expression-self:"+id, fmt.Sprintf("%s printed %q: member %q decodes to %q (present=%v) but {%s} is %q in the same invocation", what, out, n, gs, present, n, want[n]), cs)
+				break
+			}
+		}
+	}
+}
+
 func quoteArgs(a []string) string {
 	var out []string
 	for _, s := range a {
@@ -705,6 +793,48 @@ func exprCases(c *run.Ctx, n int) {
 			cs.Data = append(cs.Data, b64(v))
 		}
 		c.Count("expr_cases", 1)
+		execCase(c, cs)
+		if c.Violations() >= 20 {
+			return
+		}
+	}
+}
+
+// exprSelfCases: raw -k arguments of every shape the flag accepts.
+func exprSelfCases(c *run.Ctx, n int) {
+	word := func(r *run.Rand) string {
+		const al = "abcdefghijklmnopqrstuvwxyz"
+		b := make([]byte, 1+r.Intn(5))
+		for i := range b {
+			b[i] = al[r.Intn(len(al))]
+		}
+		return "w" + string(b)
+	}
+	for i := 0; i < n; i++ {
+		if !c.Mine(i) {
+			continue
+		}
+		r := c.Rand("exprself", i)
+		cs := &Case{Kind: "exprself", Views: []string{".", ".#"}}
+		var names []string
+		for k, nk := 0, 1+r.Intn(3); k < nk; k++ {
+			names = append(names, "k"+word(r))
+		}
+		for k, np := 0, 1+r.Intn(5); k < np; k++ {
+			name := names[r.Intn(len(names))]
+			switch r.Intn(4) {
+			case 0:
+				cs.Pairs = append(cs.Pairs, name) // no '='
+			case 1:
+				cs.Pairs = append(cs.Pairs, name+"="+word(r)+"="+word(r))
+			default:
+				cs.Pairs = append(cs.Pairs, name+"="+word(r))
+			}
+		}
+		for k, nd := 0, r.Intn(3); k < nd; k++ {
+			cs.Data = append(cs.Data, b64([]byte(word(r))))
+		}
+		c.Count("exprself_cases", 1)
 		execCase(c, cs)
 		if c.Violations() >= 20 {
 			return
